@@ -188,14 +188,20 @@ TypeMatch(v, t) ==
       [] OTHER -> "U"
 Patterns == {"re:ab.", "re:^b", "re:z", "re:[0-9]"}
 \* output assertions: the left operand is an execution that printed, the right one the expected text
-Outputs == {"o:abc", "o:ABC!", "o:abd", "o:none", "o:two", "err", "errx"}
+Outputs == {"o:abc", "o:ABC!", "o:abd", "o:none", "o:two", "o:abcnn", "err", "errx"}      \* o:abcnn: print('abc'); print()
 OutTexts == {"abc", "ABC", "abc!", "abd", "empty", "two"}
-OutFam(a) == a \in {"output", "not_output", "output_contains", "not_output_contains"}
+OutFam(a) == a \in {"output", "not_output", "output_contains", "not_output_contains", "output_exact", "not_output_exact"}
+\* exact_strings=True: character by character, after the ONE line end that the final print() adds is taken off
+ExactOut(o) == CASE o = "o:abc" -> "abc" [] o = "o:ABC!" -> "ABC!" [] o = "o:abd" -> "abd" [] o = "o:none" -> ""
+                 [] o = "o:two" -> "abd\nabc" [] o = "o:abcnn" -> "abc\n" [] OTHER -> "?"
+ExactText(t) == CASE t = "abc" -> "abc" [] t = "ABC" -> "ABC" [] t = "abc!" -> "abc!" [] t = "abd" -> "abd" [] t = "empty" -> ""
+                  [] t = "two" -> "abc\nabd" [] OTHER -> "??"
 \* documented normal form: lower-case, punctuation removed, split into lines, empty lines dropped, lines sorted
-NF(x) == CASE x \in {"o:abc", "o:ABC!", "abc", "ABC", "abc!"} -> {"abc"} [] x \in {"o:abd", "abd"} -> {"abd"}
+NF(x) == CASE x \in {"o:abc", "o:ABC!", "o:abcnn", "abc", "ABC", "abc!"} -> {"abc"} [] x \in {"o:abd", "abd"} -> {"abd"}
            [] x \in {"o:two", "two"} -> {"abc", "abd"} [] OTHER -> {}
 \* lower-cased text IN lower-cased output (run of characters anywhere); o:two prints "abd" then "abc"
 ContainsPairs == {<<o, "empty">> : o \in Outputs \ {"err", "errx"}}
+    \cup {<<"o:abcnn", "abc">>, <<"o:abcnn", "ABC">>}
     \cup {<<"o:abc", "abc">>, <<"o:abc", "ABC">>, <<"o:ABC!", "abc">>, <<"o:ABC!", "ABC">>, <<"o:ABC!", "abc!">>,
           <<"o:two", "abc">>, <<"o:two", "ABC">>, <<"o:abd", "abd">>, <<"o:two", "abd">>}
 LazyNames == {"R12", "M12"}
@@ -229,6 +235,7 @@ HoldsN(a, ln, rn) ==
       [] a = "not_is_instance" -> B(~InstanceOf(Val(ln), rn))
       [] a = "type" -> TypeMatch(Val(ln), rn) [] a = "not_type" -> Neg(TypeMatch(Val(ln), rn))
       [] a = "output" -> B(NF(ln) = NF(rn)) [] a = "not_output" -> B(NF(ln) # NF(rn))
+      [] a = "output_exact" -> B(ExactOut(ln) = ExactText(rn)) [] a = "not_output_exact" -> B(ExactOut(ln) # ExactText(rn))
       [] a = "output_contains" -> B(<<ln, rn>> \in ContainsPairs) [] a = "not_output_contains" -> B(<<ln, rn>> \notin ContainsPairs)
       [] a = "regex" -> B(Matches(ln, TextOf(rn)))
       [] a = "not_regex" -> B(~Matches(ln, TextOf(rn)))
@@ -238,6 +245,7 @@ Negation(a) == CASE a = "equal" -> "not_equal" [] a = "in" -> "not_in" [] a = "i
                  [] a = "true" -> "false" [] a = "less" -> "greater_equal" [] a = "greater" -> "less_equal"
                  [] a = "length_equal" -> "length_not_equal" [] a = "length_less" -> "length_greater_equal"
                  [] a = "is" -> "is_not" [] a = "is_instance" -> "not_is_instance" [] a = "regex" -> "not_regex" [] a = "type" -> "not_type"
+                 [] a = "output_exact" -> "not_output_exact"
                  [] a = "output" -> "not_output" [] a = "output_contains" -> "not_output_contains"
                  [] OTHER -> "-"
 
